@@ -79,7 +79,7 @@ def make_files(s, rng, tmpdir, n, for_merge=False):
     ids = gen.Ids('c')
     for k in range(n):
         r = rng.random()
-        name = os.path.join(tmpdir, rng.choice(['f%02d-%d.mos.xml', 'f %02d %d.mos.xml', 'fé%02d-%d ü.mos.xml']) %
+        name = os.path.join(tmpdir, rng.choice(['f%02d-%d.mos.xml', 'f %02d %d.mos.xml', 'fé%02d-%d ü.mos.xml', 'f[%02d]-%d.mos.xml', 'f%02d-%d*?.mos.xml']) %
                             (k, rng.randint(0, 999)))
         if r < 0.6:
             kind = rng.choice(B.ALL_KINDS + ('roCreate',))
@@ -210,7 +210,7 @@ def merge_files(s, rng, tmpdir):
     order = list(range(len(docs)))
     rng.shuffle(order)
     for j in order:
-        p = os.path.join(tmpdir, rng.choice(['m%02d.mos.xml', 'm %02d.mos.xml', 'mö%02d.mos.xml']) % j)
+        p = os.path.join(tmpdir, rng.choice(['m%02d.mos.xml', 'm %02d.mos.xml', 'mö%02d.mos.xml', 'm[%02d].mos.xml', 'm%02d*.mos.xml']) % j)
         write_doc(rng, p, docs[j])
         paths.append(p)
     r = rng.random()
